@@ -196,7 +196,7 @@ func faultPositions(r *prng.R, ep string, t tree, items []item) []string {
 func gen(r *prng.R, f proto.Flags, emit func(proto.Case)) {
 	payloads := 90
 	if f.Tier == "thorough" {
-		payloads = 900
+		payloads = 650
 	}
 	payloads *= f.Budget
 	id := 0
